@@ -848,6 +848,10 @@ impl<'a, T: QueryToRelationTranslator + Copy + Clone> Visitor<'a, Result<Arc<Rel
         query: &'a ast::Query,
         visited: Visited<'a, ast::Query, Result<Arc<Relation>>>,
     ) -> Result<Arc<Relation>> {
+        // A query referring to a query that cannot be translated cannot be translated either
+        for (_, referred) in self.query_names.name_referred(query) {
+            visited.get(referred).clone()?;
+        }
         let visited_query_relations = VisitedQueryRelations::new(self, query, visited);
         // Retrieve a relation before ORDER BY and LIMIT
         let relation = visited_query_relations.try_from_query(query)?;
